@@ -407,7 +407,9 @@ impl World {
                 let valid = connector_config::validate_connector(&c).is_ok();
                 let (st, _) = api!(self, "PUT", &format!("/api/v1/cluster/connectors/{}", name), serde_json::to_value(&c).ok());
                 ctx.count(if st == 200 { "conn.update_ok" } else { "conn.update_rejected" });
-                self.emit(ctx, &format!("connupdate {} {} {}", name, conn_body(&c), if valid { 1 } else { 0 }), if st == 200 { "ok" } else { "rejected" }).await;
+                // `name` = path parameter (the key), `c.name` = the name inside the body: the API does not require them to agree
+                if c.name != name { ctx.count(if st == 200 { "conn.update_ok_body_name_differs" } else { "conn.update_rejected_body_name_differs" }); }
+                self.emit(ctx, &format!("connupdate {} {} {} {}", name, c.name, conn_body(&c), if valid { 1 } else { 0 }), if st == 200 { "ok" } else { "rejected" }).await;
             }
             _ => {
                 let (st, _) = api!(self, "DELETE", &format!("/api/v1/cluster/connectors/{}", name), None);
@@ -490,6 +492,7 @@ impl World {
         { let mut c = self.coord.write().await; let _ = c.evaluate_scaling(); }
     }
 
+    async fn connector_names(&self) -> Vec<String> { let c = self.coord.read().await; let mut v: Vec<String> = c.connectors.keys().cloned().collect(); v.sort(); v }
     async fn worker_ids(&self) -> Vec<String> { let c = self.coord.read().await; let mut v: Vec<String> = c.workers.keys().map(|k| k.0.clone()).collect(); v.sort(); v }
     async fn groups(&mut self) -> Vec<String> {
         let keys: Vec<String> = { let c = self.coord.read().await; c.pipeline_groups.keys().cloned().collect() };
@@ -575,7 +578,19 @@ async fn scenario(ctx: &mut Ctx, base: &str, script: &Script, idx: u64) {
                 let name = ctx.rng.pick(&["c1", "c2", "9bad"]).to_string();
                 match ctx.rng.below(5) {
                     0 | 1 => { let c = gen_connector(ctx, &name); w.connector(ctx, "create", &name, Some(c)).await; }
-                    2 | 3 => { let c = gen_connector(ctx, &name); w.connector(ctx, "update", &name, Some(c)).await; }
+                    2 | 3 => {
+                        // path: mostly an existing connector, else any name; body name: the path name, another existing
+                        // connector's name, or a fresh one
+                        let existing = w.connector_names().await;
+                        let path = if !existing.is_empty() && ctx.rng.chance(3, 4) { ctx.rng.pick(&existing).clone() } else { name.clone() };
+                        let body_name = match ctx.rng.below(4) {
+                            0 | 1 => path.clone(),
+                            2 if !existing.is_empty() => ctx.rng.pick(&existing).clone(),
+                            _ => ctx.rng.pick(&["c1", "c2", "c3", "tmpl"]).to_string(),
+                        };
+                        let c = gen_connector(ctx, &body_name);
+                        w.connector(ctx, "update", &path, Some(c)).await;
+                    }
                     _ => w.connector(ctx, "delete", &name, None).await,
                 }
             }
@@ -636,7 +651,14 @@ async fn scenario3(ctx: &mut Ctx, base: &str, script: &Script) {
             2..=4 => { if w.groups().await.len() < 2 { let specs = vec![PSpec { name: "p".into(), aff: None, replicas: 1 + ctx.rng.below(2) as usize }]; let o3 = !ctx.rng.chance(1, 4); w.deploy(ctx, "grp", &specs, &[true, true, o3]).await; } }
             5 => { let gs = w.groups().await; if !gs.is_empty() { let g = ctx.rng.pick(&gs).clone(); w.teardown(ctx, &g).await; } }
             6 | 7 => { let ps = w.placements().await; if !ps.is_empty() { let (g, n, _) = ctx.rng.pick(&ps).clone(); w.manual_migrate(ctx, &g, &n, &anyw, true).await; } }
-            8 | 9 => { let name = ctx.rng.pick(&["c1", "c2"]).to_string(); let cn = gen_connector(ctx, &name); if ctx.rng.chance(2, 3) { w.connector(ctx, "create", &name, Some(cn)).await; } else { w.connector(ctx, "delete", &name, None).await; } }
+            8 | 9 => {
+                let name = ctx.rng.pick(&["c1", "c2"]).to_string();
+                match ctx.rng.below(4) {
+                    0 | 1 => { let cn = gen_connector(ctx, &name); w.connector(ctx, "create", &name, Some(cn)).await; }
+                    2 => { let other = ctx.rng.pick(&["c1", "c2", "tmpl"]).to_string(); let cn = gen_connector(ctx, &other); w.connector(ctx, "update", &name, Some(cn)).await; }
+                    _ => w.connector(ctx, "delete", &name, None).await,
+                }
+            }
             10 => { w.set_time(w.now + 16000); let x = wn(1); let n = w.assigned_len(&x).await; w.heartbeat(ctx, &x, n, 1).await; w.tick(ctx, &[true, true, true, true]).await; }
             _ => { w.set_time(w.now + 20); w.register(ctx, &anyw, 2, 0, 4).await; }
         }
